@@ -325,6 +325,8 @@ def run(ctx, P):
     r2.purges_keep_other_commands(ctx, P, "C07h")
     r2.interface_rules(ctx, P, "C07i", want=("status",))
     r2.rewritten_probe_restarts(ctx, P, "C07j")
+    from . import r4
+    r4.probes_driven_every_iteration(ctx, P, "C07k")
     clause_waiters(ctx, P)
     clause_a(ctx, P)
     clause_b(ctx, P)
